@@ -31,7 +31,7 @@ VERIF = Path(__file__).resolve().parent.parent
 REPLAYS = VERIF / "replays"
 OUT = Path(os.environ.get("VERIF_OUT_DIR") or VERIF)  # mutation audits write elsewhere
 EVIDENCE = OUT / "evidence"
-LEDGER = VERIF / "known_findings.json"
+LEDGER = Path(os.environ.get("VERIF_LEDGER") or VERIF / "known_findings.json")  # override: what-if runs with entries closed
 
 
 class Violation(Exception):
